@@ -110,15 +110,26 @@ class RawPayloadDecoder(AbstractSimplePayloadDecoder):
 
             return
 
+        value = noValue
+
         while True:
-            for value in decodeFun(
+            for component in decodeFun(
                     substrate, asn1Spec, tagSet, length,
                     allowEoo=True, **options):
 
-                if value is eoo.endOfOctets:
+                if isinstance(component, SubstrateUnderrunError):
+                    yield component
+
+                elif component is eoo.endOfOctets:
+                    # the value goes last: whoever drives this generator
+                    # takes the last item for the result
+                    if value is not noValue:
+                        yield value
+
                     return
 
-                yield value
+                else:
+                    value = component
 
 
 rawPayloadDecoder = RawPayloadDecoder()
